@@ -211,6 +211,9 @@ func main() {
 	res.WallS = time.Since(start).Seconds()
 	prefix := strings.ToLower(w.Property) // counters of this property's workloads are reported even when zero (probes)
 	for k, n := range core.CounterNames() {
+		if strings.HasPrefix(n, "~") {
+			continue // an unused slot of a lazily named counter block
+		}
 		if totals[k] != 0 || strings.HasPrefix(n, prefix) {
 			res.Counters[n] = totals[k]
 		}
